@@ -144,3 +144,136 @@ def run_concern(pid: str, tier: str, seed: int, runs=None) -> dict:
                        'l3_samples': samples, 'l3_skipped': skipped, 'l3_solver_ms': solver_ms,
                        'l3_wall_s': round(time.time() - t0, 1)}
     return res
+
+
+# ------------------------------------------------------------------------------------------------
+# C10, last clause and the "one module per namespace" clause, on the EMITTED text of the current generator.
+# Namespace declarations live in #[yaserde(..)] attribute text, which no verifier front end sees; they are compared as text.
+
+def ns_decl_checks(em, m) -> list:
+    """[(label, ok, detail)] for one emitted file"""
+    import re
+    from ..l3.specgen import Emitted
+    res = []
+
+    def attr(txt, key):
+        mm = re.search(r'\b' + key + r'\s*=\s*"([^"]*)"', txt)
+        return mm.group(1) if mm else None
+
+    def decls(txt):
+        mm = re.search(r'namespaces\s*=\s*\{(.*?)\}', txt, re.S)
+        if not mm:
+            return None
+        return re.findall(r'"([^"]*)"\s*=\s*"([^"]*)"', mm.group(1))
+
+    structs = []      # (module or None, struct item)
+    for name, mod in em.mods.items():
+        for c in mod.children:
+            if c.kind == 'struct':
+                structs.append((name, c))
+    for c in em.root:
+        if c.kind == 'struct':
+            structs.append((None, c))
+    aliases = {}
+    for name, mod in em.mods.items():
+        for c in mod.children:
+            if c.kind == 'type':
+                mt = re.search(r'=\s*([\w:]+)\s*;', c.text)
+                if mt:
+                    aliases[f'{name}::{c.name}'] = mt.group(1)
+    by_path = {(f'{mn}::{st.name}' if mn else st.name): st for mn, st in structs}
+    p2u, u2p, mod_uri = {}, {}, {}
+    for mn, st in structs:
+        a = em.attr_text(st)
+        d = decls(a)
+        q = f'{mn}::{st.name}' if mn else st.name
+        if d is None:
+            continue
+        # (1) the table read off all declarations of the file is a bijection prefix <-> URI
+        ok, det = True, ''
+        for p, u in d:
+            if p2u.setdefault(p, u) != u:
+                ok, det = False, f'prefix {p} is declared as {p2u[p]} and as {u}'
+            if u2p.setdefault(u, p) != p:
+                ok, det = False, f'URI {u} is declared with prefixes {u2p[u]} and {p}'
+        res.append((f'decl:{q}#prefix-uri-table-bijective', ok, det or f'{len(d)} declarations'))
+        # (2) the struct's own prefix is declared by it
+        own = attr(a.split('namespaces')[0], 'prefix') or attr(a, 'prefix')
+        dd = dict(d)
+        if own is not None:
+            res.append((f'decl:{q}#own-prefix-declared', own in dd, f'prefix {own}, declared {sorted(dd)}'))
+            if mn is not None and own in dd:
+                ok = mod_uri.setdefault(mn, dd[own]) == dd[own]
+                res.append((f'decl:{q}#module-holds-one-namespace', ok, f'module {mn} holds {mod_uri[mn]} and {dd[own]}'))
+        # (3) every prefix used by a member is declared: by this struct, or (struct-typed member) by the struct of its type
+        for fname, fty, fattr in Emitted.fields(st):
+            fp = attr(fattr, 'prefix')
+            if fp is None:
+                continue
+            ok = fp in dd
+            how = 'own list'
+            if not ok:
+                core = fty
+                while True:
+                    mm = re.fullmatch(r'(?:Option|Vec|multi_ref::MultiRef)\s*<\s*(.*)\s*>', core)
+                    if not mm:
+                        break
+                    core = mm.group(1).strip()
+                seen = set()
+                while core in aliases and core not in seen:
+                    seen.add(core)
+                    core = aliases[core]
+                tst = by_path.get(core)
+                if tst is not None:
+                    td = dict(decls(em.attr_text(tst)) or [])
+                    ok = fp in td
+                    how = f'declared by the member type {core}'
+                else:
+                    how = f'member type {core} is not a generated struct and {q} declares only {sorted(dd)}'
+            res.append((f'decl:{q}.{fname}#prefix-declared', ok, f'prefix {fp}: {how}'))
+    # (4) the modules and prefixes agree with the schema set: one module per target namespace that has components
+    for ns in m.namespaces:
+        has = any(k[0] == ns for k in list(m.complex) + list(m.simple) + list(m.elements))
+        if has and ns in u2p:
+            mods = sorted(mn for mn, u in mod_uri.items() if u == ns)
+            res.append((f'decl:namespace:{ns}#one-module', len(mods) <= 1, f'modules {mods}'))
+    return res
+
+
+def run_c10(pid: str, tier: str, seed: int, runs=None) -> dict:
+    from ..l3.specgen import Emitted
+    t0 = time.time()
+    progs = corpus_programs(tier) + generated_programs(tier, seed)
+    models, skipped = {}, []
+    for p in progs:
+        try:
+            models[p] = M.load(p)
+        except M.Unsupported as e:
+            skipped.append(f'{rel_of(p, seed)}: outside the subset ({e})')
+    gen = l3gen.generate(list(models), REPO)
+    res = {'obligations': [], 'failures': [], 'coverage': {}, 'trusted_base': [], 'back_end': ' + attribute-text comparison (no solver) for the emitted namespace declarations'}
+    nprog = 0
+    for p, m in models.items():
+        g = gen[p]
+        rel = rel_of(p, seed)
+        if g['status'] != 'OK':
+            skipped.append(f'{rel}: generator did not produce output ({g["status"]} {g["msg"][:120]})')
+            continue
+        uname = 'L3_' + os.path.basename(os.path.dirname(p)) + ('s%d' % seed if not p.startswith(VERIF + os.sep) else '') + '_C10'
+        try:
+            em = Emitted(g['out'])
+            checks = ns_decl_checks(em, m)
+        except Disagreement as e:
+            checks = [(f'index:{os.path.basename(p)}#{e.what[:80]}', False, e.what)]
+        except Exception as e:      # lexer / parser trouble is not a verdict
+            skipped.append(f'{rel}: emitted file could not be indexed ({e!r})')
+            continue
+        nprog += 1
+        for lab, ok, detail in checks:
+            res['obligations'].append(f'{uname}:{lab}')
+            if not ok:
+                res['failures'].append(Failure(uname, lab, 'namespace declaration in the emitted yaserde attributes disagrees with the property: ' + detail,
+                                               [{'file': 'schema:' + rel, 'line': 0, 'text': rel, 'what': 'program'}], detail, props=[pid]))
+    res['coverage'] = {'programs': nprog, 'l3_skipped': skipped, 'l3_wall_s': round(time.time() - t0, 1),
+                       'emitted_declaration_checks': len(res['obligations'])}
+    return res
